@@ -96,7 +96,9 @@ def run(run):
                 xc = x if cplx else torch.complex(x, torch.zeros_like(x))
                 e["complex_out"] = bool(y.is_complex())
                 e["shape_ok"] = tuple(y.shape) == tuple(shape)
-                e["mag_err_ppm"] = sint(float((y.abs() / xc.abs() - 1).abs().max()) * 1e6)
+                # relative to the sample's own magnitude, floored at a thousandth of the RMS level (a sample that happens to be zero has no ratio)
+                floor = 1e-3 * float(xc.abs().pow(2).mean().sqrt())
+                e["mag_err_ppm"] = sint(float(((y.abs() - xc.abs()).abs() / xc.abs().clamp_min(floor)).max()) * 1e6)
                 th = torch.angle(y * torch.conj(xc)).double()
                 if sgf == 0:
                     e["identity"] = bool(torch.allclose(y, xc, rtol=0, atol=1e-7))
